@@ -18,8 +18,9 @@ SHARED = (
     "G - no one-shot iterator is consumed twice (typestate), nothing positional derives from the order of a set or of a caller's mapping, "
     "values computed on argsort-ed data are un-sorted with the inverse permutation; "
     "D - no floating type narrower than double is named as a working or storage type; "
+    "S - every parameter of the pinned signatures that can be passed by position keeps its position; "
     "W - a decorated public function means the same for positional and keyword calls (decorators, properties, __setattr__, "
-    "the MRO and name mangling are interpreted, not skipped)."
+    "the MRO and name mangling are interpreted, not skipped), an override that delegates to super() forwards what it accepts."
 )
 
 META = {
